@@ -510,6 +510,20 @@ def group_cases(r: random.Random, n: int) -> Cases:
             a, b = G.parse(text, fmt), G.parse(text2, fmt)
             return "ok:" + ",".join("True" if x else "False" for x in (a < b, a == b, a > b))
         cs.add("group.cmp", [wdecl(decl), text, fmt, text2, fmt], cmp3)
+    # a directive repeated inside an occurrence that is itself repeated (capture names x__1___number__1__1 …): agreeing
+    # and disagreeing texts at every position
+    for decl, d, t1, t2 in (([("x", "serial"), ("other", "naming")], "%n", "12", "13"), ([("x", "datetime")], "%d", "05", "07"), ([("ab", "serial"), ("a", "serial")], "%p", "012", "013"),
+                            ([("x", "version")], "%m", "1", "2"), ([("x", "storage")], "%b", "8", "16")):
+        G = make_group({nm: KINDS[k] for nm, k in decl})
+        nm0 = decl[0][0]
+        for shape in ([1, 2], [2, 2], [1, 1, 3]):
+            fmt = " ".join("{" + nm0 + ":" + " ".join([d] * k) + "}" for k in shape)
+            cs.add("group.gen_format", [wdecl(decl), fmt],
+                   lambda G=G, fmt=fmt: (lambda p: "ok:" + esc(p[0]) + "|" + ",".join(f"{esc(k)}={esc(v['fmt'])}" for k, v in p[1].items()))(G.gen_format(fmt)))
+            npos = sum(shape)
+            for bad in [None] + list(range(npos)):
+                tx = " ".join(t2 if i == bad else t1 for i in range(npos))
+                cs.add("group.parse", [wdecl(decl), tx, fmt], lambda G=G, tx=tx, fmt=fmt: "ok:" + gshow(G, G.parse(tx, fmt)))
     return cs
 
 
@@ -561,3 +575,22 @@ def assets_cases(r: random.Random, n: int) -> Cases:
                 cs.add("adatetime.parse", [tx, wopt(fm), "1" if strict else "0"],
                        lambda tx=tx, fm=fm, strict=strict: "ok:" + value_text("datetime", AD.parse(tx, fm, strict=strict).value))
     return cs
+
+
+def group_inner_repeats():
+    """(class name, group class, directive, format, text, index of the disagreeing position or None, agreed text):
+    one member that occurs several times, with a directive repeated inside an occurrence"""
+    from fmtutil import Datetime, Serial, Storage, Version
+    table = [("Serial", Serial, [("%n", "12", "13"), ("%p", "012", "013"), ("%c", "1,234", "1,235"), ("%b", "00001100", "00001101"), ("%u", "12", "13")]),
+             ("Datetime", Datetime, [("%Y", "2024", "2023"), ("%m", "01", "02"), ("%d", "05", "07"), ("%H", "10", "11"), ("%M", "10", "11"), ("%S", "10", "11"), ("%y", "24", "23"),
+                                     ("%j", "005", "006"), ("%B", "January", "March"), ("%-d", "5", "7"), ("%f", "000123", "000124")]),
+             ("Version", Version, [("%m", "1", "2"), ("%n", "1", "2"), ("%c", "1", "2")]),
+             ("Storage", Storage, [("%b", "8", "16"), ("%B", "1B", "2B"), ("%K", "1KB", "2KB")])]
+    for name, cls, rows in table:
+        G = make_group({"x": cls, "other": Serial})
+        for d, t1, t2 in rows:
+            for shape in ([1, 2], [1, 1, 3], [2, 2], [3, 1]):
+                fmt = " ".join("{x:" + " ".join([d] * k) + "}" for k in shape)
+                npos = sum(shape)
+                for bad in [None] + list(range(npos)):
+                    yield name, G, d, fmt, " ".join(t2 if i == bad else t1 for i in range(npos)), bad, t1
